@@ -242,10 +242,18 @@ def gen_history(rng, cfg, pool, text, nops, weights=None, allow_uncrawled_pages=
         return bool(text) and all(l in text for l in lrus) and rng.random() < 0.7
 
     guard = 0
+    just_ruled = None
     came_off = None  # a prefix that has just lost its webentity: a page at or below it comes back next, now and then
     while len(ops) < nops and guard < nops * 20:
         guard += 1
         k = rng.choices(kinds, wts)[0]
+        if just_ruled is not None:
+            a_, just_ruled = just_ruled, None
+            if a_ in m.flags and w.get("rmrule", 0) > 0 and rng.random() < 0.3:
+                # a rule taken off again right after it was installed (the marks the installation left must all go, and only they)
+                ops.append({"op": "rmrule", "anchor": a_})
+                m.remove_rule(a_)
+                continue
         if came_off is not None:
             pre, came_off = came_off, None
             if rng.random() < 0.45 and w.get("add_page", 0) > 0:
@@ -396,9 +404,14 @@ def gen_history(rng, cfg, pool, text, nops, weights=None, allow_uncrawled_pages=
             ops.append({"op": "mvp", "prefix": p, "of": of, "with_src": rng.random() < 0.7, "alias": rng.random() < 0.3})
             m.we[p] = m.we[of]
         elif k == "rule":
-            if m.rules and rng.random() < 0.25:
+            r0 = rng.random()
+            short_pages = sorted(p_ for p_ in m.pages if 2 <= len(stems(p_)) <= 5)
+            if m.rules and r0 < 0.25:
                 # an anchor that already has (or had) a rule: its regexp is replaced (usually by another one)
                 a = rng.choice(sorted(m.rules))
+            elif short_pages and r0 < 0.45:
+                # an anchor that is itself a page (a site's home page): marks of the two roles share one node
+                a = rng.choice(short_pages)
             else:
                 a = some_prefix(rng, pick(), 2, 4)
             if not a.startswith(b"s:"):
@@ -407,6 +420,7 @@ def gen_history(rng, cfg, pool, text, nops, weights=None, allow_uncrawled_pages=
             ops.append({"op": "rule", "anchor": a, "rule": r})
             m.add_rule(a, RX[r])
             m.take_groups()
+            just_ruled = a
         elif k == "rmrule" and m.flags:
             a = rng.choice(sorted(m.flags))
             ops.append({"op": "rmrule", "anchor": a})
